@@ -36,6 +36,10 @@ with `validate t = true`, and for EVERY such table (`C12`): `entries()` never pa
 set of at most `n` members and an answer of at most `first` phrases.  The old witnesses are kept:
 `validate` rejects each of them (`witnesses_rejected`), and what the traversals would do on them without the
 validation is still proved (`unvalidated_*`).  `validate (write b) = true` is C11's `validate_write`.
+Since the repair of C13's F47 `Syllable::try_from` rejects every value that is not a syllable code (`validCode`), and the
+`Syllable::try_from(syl).unwrap()` of `entries()` is modelled with it; `validate_index` checks the syllable of every node
+record, so `C12` holds as before for every accepted table (`valid_validSyls`; `unvalidated_entries_invalid_syllable` shows the
+check is needed), and a legacy record with such a value is an ordinary load error (`uhash_invalid_syllable_is_error`).
 The legacy-file findings F14/F15/F39 were repaired by `fix:` commits; the model is of the repaired
 code and `uhash_total` holds without hypothesis (`uhash_orig_panics` keeps the old witnesses).
 F40 — a stored frequency within reach of `u32::MAX` aborted the first commit that learned the phrase
